@@ -308,3 +308,390 @@ SI = Unit('C18', OPT + 'generate_profiles.sample_iter', _si_params, yields=_si_y
           short='Optimizer.generate_profiles.sample_iter',
           doc='the iterator handed to compute_error on one rank processes exactly the samples rank, rank+size, ... in order (0..6 samples, '
               '1..4 ranks, every rank); with lemma round_robin_partition every sample is processed exactly once over all ranks')
+
+
+# ------------------------------------------------------------------ OnlineVariance.parallelVariance: what is gathered and how it is combined
+from pyvc.core import PyList, Ref, is_sym
+
+
+def _pv_params(c):
+    has = c.choice('has_mean')
+    return dict(self=ObjSpec('OnlineVariance', count=c.real('count'), wcount=c.real('wcount'), wcount2=c.real('wcount2'),
+                             mean=c.real('mean') if has else None, M2=c.real('M2') if has else None))
+
+
+def _h_allgather(ex, st, args, kwargs, node):
+    """ASSUMED: mpi.allgather(x) returns one entry per rank in rank order; this rank's entry is (a serialised copy of) x.
+    Each call is recorded; the other ranks' entries are unknown values tagged with the call number."""
+    c = ex.c
+    k = sum(1 for tag, y in st.trace if tag == 'ev' and y[0] == 'allgather')
+    R, r = c.fixed['R'], c.fixed['rank']
+    x = args[0]
+    out = [(x if q == r else ('nan-or-value' if False else c.real('other_%d_%d' % (k, q)))) for q in range(R)]
+    lst = st.alloc(c, PyList(out))
+    st.trace.append(('ev', ('allgather', k, x, lst.id)))
+    return lst
+
+
+def _h_combine(ex, st, args, kwargs, node):
+    c = ex.c
+    ids = [a.id if isinstance(a, Ref) else a for a in args[1:4]]
+    out = (c.real('comb_avg'), c.real('comb_var'))
+    st.trace.append(('ev', ('combine_variance',) + tuple(ids)))
+    return out
+
+
+def _pv_post(c, v0, v1, r):
+    s = v0.self
+    tr = [e for e in (c.trace or [])]
+    if c.mode == 'conc':
+        gathered = [e for e in tr if e[0] == 'allgather']
+        comb = [e for e in tr if e[0] == 'combine_variance']
+        d = {'four_exchanges_in_order': [e[1] for e in gathered] == ['variance', 'mean', 'wcount', 'count']}
+        total = sum(gathered[3][2]) if len(gathered) == 4 else None
+        if total is not None and total < 2:
+            import math
+            d['too_few_samples_gives_nan'] = isinstance(r, float) and math.isnan(r) and not comb
+        else:
+            d['combined_from_means_variances_weights'] = len(comb) == 1 and comb[0][1:] == ('mean', 'variance', 'wcount') and r == 'combined-variance'
+        return d
+    gathered = [e for e in tr if e[0] == 'allgather']
+    comb = [e for e in tr if e[0] == 'combine_variance']
+    d = {'four_exchanges': len(gathered) == 4}
+    if not d['four_exchanges']:
+        return d
+    var_x, mean_x, wc_x, cnt_x = [e[2] for e in gathered]
+    # what this rank contributes: its variance (NaN below two samples), its mean (NaN when it has none), weight sum, count
+    d['contributes_weight_sum_and_count'] = (is_sym(wc_x) and wc_x.eq(s.wcount)) and (is_sym(cnt_x) and cnt_x.eq(s.count))
+    d['contributes_its_mean'] = (mean_x is s.mean or (is_sym(mean_x) and s.mean is not None and mean_x.eq(s.mean))) if s.mean is not None \
+        else type(mean_x).__name__ == 'NanRef'
+    if comb:
+        d['combined_from_means_variances_weights'] = len(comb) == 1 and comb[0][1:] == (gathered[1][3], gathered[0][3], gathered[2][3])
+        d['returns_the_combined_variance'] = is_sym(r) and r.eq(c.real('comb_var'))
+    else:
+        d['too_few_samples_gives_nan'] = type(r).__name__ == 'NanRef'
+    return d
+
+
+def _pv_native(c, p):
+    import numpy as np
+    import taurex.mpi as mpi
+    from taurex.util.math import OnlineVariance
+    R, rk = c.values['R'], c.values['rank']
+    s = p['self']
+    o = OnlineVariance()
+    o.count, o.wcount, o.wcount2 = s['count'], s['wcount'], s['wcount2']
+    o.mean = None if s['mean'] is None else np.array([s['mean']])
+    o.M2 = None if s['M2'] is None else np.array([s['M2']])
+    trace = []
+    others = c.values.get('others', [1.0] * 4)
+    names = ['variance', 'mean', 'wcount', 'count']
+    tags = {}
+
+    def ag(x):
+        k = len([e for e in trace if e[0] == 'allgather'])
+        out = [x if q == rk else others[k % 4] for q in range(R)]
+        tags[id(out)] = names[k] if k < 4 else '?'
+        trace.append(('allgather', names[k] if k < 4 else '?', out if k == 3 else None))
+        return out
+
+    def comb(averages, variance, counts):
+        trace.append(('combine_variance', tags.get(id(averages), '?'), tags.get(id(variance), '?'), tags.get(id(counts), '?')))
+        return 'combined-average', 'combined-variance'
+    saved = mpi.allgather
+    mpi.allgather = ag
+    o.combine_variance = comb
+    try:
+        r = o.parallelVariance()
+    finally:
+        mpi.allgather = saved
+    return r, dict(p, __trace__=trace)
+
+
+def _pv_gen(rng):
+    R = rng.randint(1, 3)
+    has = rng.random() < 0.8
+    cnt = float(rng.randint(1, 4)) if has else 0.0
+    return dict(R=R, rank=rng.randrange(R), has_mean=has, few=cnt < 2, count=cnt, wcount=cnt * 0.5, wcount2=cnt * 0.25, mean=1.5, M2=0.7,
+                others=[0.3, 1.1, rng.choice([0.0, 1.0]), float(rng.choice([0, 0, 1, 3]))])
+
+
+def _pv_pre(c, v):
+    few = (c.fixed if c.mode != 'conc' else c.values)['few']
+    d = {'counts': c.And(v.self.count >= 0, v.self.wcount >= 0), 'own_samples': (v.self.count < 2) if few else (v.self.count >= 2)}
+    if not few:
+        d['weights_positive'] = v.self.wcount > 0
+    return d
+
+
+PVAR = Unit('C18', OV + 'parallelVariance', _pv_params, pre=_pv_pre, post=_pv_post,
+            cases=[dict(R=R, rank=r, has_mean=h, few=f) for R in (1, 2, 3) for r in range(R) for h, f in ((True, False), (True, True), (False, True))],
+            bounds=[{}], safety=('index',),
+            abstract={'call:allgather': _h_allgather, 'call:combine_variance': _h_combine}, inline=['variance'], native=_pv_native, gen=_pv_gen,
+            short='OnlineVariance.parallelVariance',
+            doc='every rank contributes its variance, mean (NaN when it has no sample), weight sum and count; NaN when fewer than two samples '
+                'exist in total, otherwise combine_variance (by contract, unit above) of the gathered means, variances and weight sums, in '
+                'that argument order (allgather: assumed rank-ordered; 1..3 ranks)')
+
+
+# ------------------------------------------------------------------ SimpleForwardModel.compute_error: every sample evaluated once, with its weight
+from pyvc.engine import AbsObj
+from pyvc.core import Arr
+
+
+def _ev(st, *payload):
+    st.trace.append(('ev', tuple(payload)))
+
+
+class _Sample(object):
+    """k-th element of the abstract sample generator: taking it is an effect (the optimizer writes sample k to the model)"""
+
+    def __init__(self, k, w):
+        self.k, self.w = k, w
+
+    def on_take(self, st):
+        _ev(st, 'sample', self.k)
+
+
+def _h_samples(ex, st, args, kwargs, node):
+    c = ex.c
+    K = c.fixed['K']
+    items = []
+    for k in range(K):
+        w = c.real('w%d' % k)
+        s = _WeightV(w, k)
+        items.append(s)
+    return st.alloc(c, PyList(items))
+
+
+class _WeightV(float):
+    """the yielded weight w_k, with the effect of advancing the generator attached"""
+
+    def __new__(cls, w, k):
+        o = float.__new__(cls, 0.0)
+        return o
+
+    def __init__(self, w, k):
+        self.w, self.k = w, k
+
+    def on_take(self, st):
+        _ev(st, 'sample', self.k)
+
+
+def _h_new_ov(ex, st, args, kwargs, node):
+    c = ex.c
+    k = sum(1 for tag, y in st.trace if tag == 'ev' and y[0] == 'new_accumulator')
+    _ev(st, 'new_accumulator', k)
+    return AbsObj('OnlineVariance', k, {})
+
+
+def _h_ov_update(ex, st, o, args, kwargs, node):
+    w = kwargs.get('weight', args[1] if len(args) > 1 else 1.0)
+    v = args[0]
+    _ev(st, 'update', o.ident, v.id if isinstance(v, Ref) else v, getattr(w, 'k', w))
+    return None
+
+
+def _h_ov_pvar(ex, st, o, args, kwargs, node):
+    c = ex.c
+    r = st.alloc(c, c.fresh_array('var%d' % o.ident, (c.fresh('nv'),)))
+    _ev(st, 'parallelVariance', o.ident, r.id)
+    return r
+
+
+def _h_ce_model(ex, st, args, kwargs, node):
+    c = ex.c
+    t = sum(1 for tag, y in st.trace if tag == 'ev' and y[0] == 'model')
+    g, a, tau = (st.alloc(c, c.fresh_array(nm, (c.fresh('W'),))) for nm in ('grid%d' % t, 'native%d' % t, 'tau%d' % t))
+    wn = kwargs.get('wngrid')
+    _ev(st, 'model', wn.id if isinstance(wn, Ref) else wn, kwargs.get('cutoff_grid'), g.id, a.id)
+    return (g, a, tau, None)
+
+
+def _h_ce_bindown(ex, st, o, args, kwargs, node):
+    c = ex.c
+    b = st.alloc(c, c.fresh_array('binned', (c.fresh('B'),)))
+    _ev(st, 'bindown', args[0].id, args[1].id, b.id)
+    return (None, b, None, None)
+
+
+def _ce_params(c):
+    cond, binned = c.choice('condensates'), c.choice('binner')
+    n = c.int('n')
+    if c.mode == 'conc':
+        return dict(self=dict(__obj__='SimpleForwardModel'), samples='<generator>', wngrid=c.array('obs', (c.int('B'),)),
+                    binner=dict(__obj__='Binner') if binned else None)
+    chem = ObjSpec('Chemistry', activeGasMixProfile=c.array('active', (1, n)), inactiveGasMixProfile=c.array('inactive', (1, n)),
+                   hasCondensates=cond, condensateMixProfile=c.array('cond', (1, n)))
+    return dict(self=ObjSpec('SimpleForwardModel', temperatureProfile=c.array('T', (n,)), chemistry=chem),
+                samples=FuncV('pyfunc', lambda ex, st, a, k, nd: _h_samples(ex, st, a, k, nd)), wngrid=c.array('obs', (c.int('B'),)),
+                binner=AbsObj('Binner', 0, {}) if binned else None)
+
+
+def _ce_expected(K, cond, binned):
+    """documented order of effects; accumulators are numbered in creation order: 0 T, 1 active, 2 inactive, [3 condensates],
+    then [binned], native"""
+    nacc = 3 + (1 if cond else 0) + (1 if binned else 0) + 1
+    ic = 3 if cond else None
+    ib = (3 + (1 if cond else 0)) if binned else None
+    inat = nacc - 1
+    out = [('new_accumulator', k) for k in range(nacc)]
+    for k in range(K):
+        out += [('sample', k), ('model', k), ('update', 0, 'T', k), ('update', 1, 'active', k), ('update', 2, 'inactive', k)]
+        if cond:
+            out.append(('update', ic, 'cond', k))
+        out.append(('update', inat, 'native%d' % k, k))
+        if binned:
+            out += [('bindown', k), ('update', ib, 'binned%d' % k, k)]
+    return out, ic, ib, inat
+
+
+def _ce_post(c, v0, v1, r):
+    fx = c.fixed if c.mode != 'conc' else c.values
+    K, cond, binned = fx['K'], fx['condensates'], fx['binner']
+    want, ic, ib, inat = _ce_expected(K, cond, binned)
+    tr = list(c.trace or [])
+    if c.mode == 'conc':
+        got = [e for e in tr if e[0] != 'parallelVariance']
+        d = {'every_sample_once_in_order_with_its_weight': got == want}
+        pv = [e[1] for e in tr if e[0] == 'parallelVariance']
+        prof, spec = r
+        keys_p = ['temp_profile_std', 'active_mix_profile_std', 'inactive_mix_profile_std'] + (['condensate_profile_std'] if cond else [])
+        keys_s = ['native_std'] + (['binned_std'] if binned else [])
+        d['keys'] = list(prof.keys()) == keys_p and list(spec.keys()) == keys_s
+        if d['keys']:
+            src = dict(zip(keys_p, [0, 1, 2] + ([ic] if cond else [])))
+            src.update(native_std=inat)
+            if binned:
+                src['binned_std'] = ib
+            d['each_std_is_the_root_of_its_own_accumulator'] = all((prof.get(k) if k in prof else spec.get(k)) == 'sqrt(var%d)' % a for k, a in src.items())
+        return d
+    heap = c.raw['state'].heap
+    s0 = v0.self
+    ids = {'T': s0.ref('temperatureProfile').id, 'active': s0.chemistry.ref('activeGasMixProfile').id,
+           'inactive': s0.chemistry.ref('inactiveGasMixProfile').id, 'cond': s0.chemistry.ref('condensateMixProfile').id}
+    models = [e for e in tr if e[0] == 'model']
+    binds = [e for e in tr if e[0] == 'bindown']
+    got = []
+    mi = bi = 0
+    ok_args = True
+    for e in tr:
+        if e[0] == 'new_accumulator':
+            got.append(e)
+        elif e[0] == 'sample':
+            got.append(e)
+        elif e[0] == 'model':
+            ok_args = ok_args and e[1] == v0.ref('wngrid').id and e[2] is False
+            got.append(('model', mi))
+            mi += 1
+        elif e[0] == 'bindown':
+            ok_args = ok_args and mi >= 1 and e[1] == models[mi - 1][3] and e[2] == models[mi - 1][4]
+            got.append(('bindown', bi))
+            bi += 1
+        elif e[0] == 'update':
+            what = e[2]
+            name = next((nm for nm, i in ids.items() if i == what), None)
+            if name is None and mi >= 1 and what == models[mi - 1][4]:
+                name = 'native%d' % (mi - 1)
+            if name is None and bi >= 1 and what == binds[bi - 1][3]:
+                name = 'binned%d' % (bi - 1)
+            got.append(('update', e[1], name, e[3]))
+    d = {'every_sample_once_in_order_with_its_weight': got == want,
+         'model_evaluated_on_the_requested_grid_without_clipping': ok_args}
+    ret = c.raw['ret']
+    pv = {e[1]: e[2] for e in tr if e[0] == 'parallelVariance'}
+    ok = isinstance(ret, tuple) and len(ret) == 2 and all(isinstance(x, Ref) and isinstance(heap[x.id], PyDict) for x in ret)
+    d['two_dictionaries'] = ok
+    if ok:
+        prof, spec = heap[ret[0].id].items, heap[ret[1].id].items
+        keys_p = ['temp_profile_std', 'active_mix_profile_std', 'inactive_mix_profile_std'] + (['condensate_profile_std'] if cond else [])
+        keys_s = ['native_std'] + (['binned_std'] if binned else [])
+        d['keys'] = list(prof.keys()) == keys_p and list(spec.keys()) == keys_s
+        if d['keys']:
+            src = dict(zip(keys_p, [0, 1, 2] + ([ic] if cond else [])))
+            src.update(native_std=inat)
+            if binned:
+                src['binned_std'] = ib
+            good = True
+            for k, a in src.items():
+                arr = heap[(prof[k] if k in prof else spec[k]).id]
+                va = heap[pv[a]] if a in pv else None
+                j = z3.Int('j?')
+                good = good and va is not None and isinstance(arr, Arr) and z3.simplify(arr.elem((j,))).eq(z3.simplify(c.sqrt(va.elem((j,)))))
+            d['each_std_is_the_root_of_its_own_accumulator'] = good
+    return d
+
+
+def _ce_native(c, p):
+    import numpy as np
+    from taurex.model.simplemodel import SimpleForwardModel
+    import taurex.util.math as tm
+    K, cond, binned = c.values['K'], c.values['condensates'], c.values['binner']
+    trace = []
+    obs = np.array(p['wngrid'], dtype=float)
+
+    class _Tag(str):
+        pass
+
+    class _OV:
+        def __init__(self):
+            self.k = len([e for e in trace if e[0] == 'new_accumulator'])
+            trace.append(('new_accumulator', self.k))
+
+        def update(self, value, weight=1.0):
+            trace.append(('update', self.k, str(value), weight))
+
+        def parallelVariance(self):
+            trace.append(('parallelVariance', self.k))
+            return _V('var%d' % self.k)
+
+    class _V:
+        def __init__(self, name):
+            self.name = name
+
+        def sqrt(self):
+            return 'sqrt(%s)' % self.name
+    chem = type('Chem', (), dict(activeGasMixProfile='active', inactiveGasMixProfile='inactive', condensateMixProfile='cond', hasCondensates=cond))()
+
+    class _M(SimpleForwardModel):
+        temperatureProfile = property(lambda self: 'T')
+        chemistry = property(lambda self: chem)
+
+        def model(self, wngrid=None, cutoff_grid=True):
+            t = len([e for e in trace if e[0] == 'model'])
+            ok = wngrid is obs and cutoff_grid is False
+            trace.append(('model', t if ok else 'wrong arguments'))
+            return 'grid%d' % t, 'native%d' % t, 'tau%d' % t, None
+    m = _M.__new__(_M)
+
+    def samples():
+        for k in range(K):
+            trace.append(('sample', k))
+            yield k
+
+    class _B:
+        def bindown(self, g, s):
+            t = len([e for e in trace if e[0] == 'bindown'])
+            trace.append(('bindown', t if (g, s) == ('grid%d' % t, 'native%d' % t) else 'wrong arguments'))
+            return None, 'binned%d' % t, None, None
+    real = tm.OnlineVariance
+    tm.OnlineVariance = _OV
+    try:
+        r = m.compute_error(samples, wngrid=obs, binner=_B() if binned else None)
+    finally:
+        tm.OnlineVariance = real
+    return r, dict(p, __trace__=trace)
+
+
+_CE_CASES = [dict(K=K, condensates=cd, binner=b) for K in (0, 1, 2, 3) for cd in (False, True) for b in (False, True)]
+from pyvc.core import PyDict
+from pyvc.engine import FuncV
+
+CERR = Unit('C18', 'taurex.model.simplemodel:SimpleForwardModel.compute_error', _ce_params, post=_ce_post, cases=_CE_CASES, bounds=[dict(n=2, B=2)],
+            abstract={'new:OnlineVariance': _h_new_ov, 'OnlineVariance.update': _h_ov_update, 'OnlineVariance.parallelVariance': _h_ov_pvar,
+                      'call:model': _h_ce_model, 'Binner.bindown': _h_ce_bindown},
+            native=_ce_native, gen=lambda rng: dict(rng.choice(_CE_CASES), n=2, B=2, obs=[1.0, 2.0]), short='SimpleForwardModel.compute_error',
+            doc='posterior spread of profiles and spectra (effect trace, 0..3 samples on this rank): for every sample handed out by the '
+                'iterator, in order, the model is evaluated once on the requested grid AFTER the sample was taken and every accumulator is '
+                'updated once with the current profile / spectrum and the weight of THAT sample; each stored standard deviation is the root of '
+                'the parallel variance of its own accumulator (OnlineVariance by its contracts)')
